@@ -597,6 +597,9 @@ func (s *c06Stores) reads(tx *bbolt.Tx, vals []string) string {
 
 func c06Exec(line string) string {
 	f := fields(line)
+	if len(f) == 3 && f[0] == "g" {
+		return c06dExec(f) // three-level chains of stores: c06_depth.go
+	}
 	if len(f) != 3 || c06Schemas[f[0]] == nil {
 		return "bad-case"
 	}
@@ -1255,4 +1258,5 @@ func c06Gen(tier string, seed uint64, out *bufio.Writer) {
 		}
 		fmt.Fprintf(out, "%s %s %s\n", head, c06ReadVals, c06GenHistory(r, nTx))
 	}
+	c06dGen(tier, r, out) // three-level chains of stores (c06_depth.go)
 }
